@@ -76,7 +76,7 @@ class Files:
         self.n += 1
         p = os.path.join(self.root, "f%d" % self.n)
         with open(p, "wb") as f:
-            f.write(text.encode(encoding))
+            f.write(text.encode(encoding, "surrogatepass"))
         return p
 
     def out(self):
@@ -124,7 +124,7 @@ def library_outcome(cmd, expr, doc_text, opts):
 
     if opts.get("doc_encoding") and not opts["doc_stdin"]:
         # a document file in another Unicode encoding: the library is handed the file's bytes
-        data = doc_text.encode(opts["doc_encoding"])
+        data = doc_text.encode(opts["doc_encoding"], "surrogatepass")
         mk = lambda _t: io.BytesIO(data)  # noqa: E731
     else:
         mk = io.StringIO
@@ -285,7 +285,8 @@ def run(spec, ctx):
             # document (and patch) files in every Unicode encoding a JSON file may arrive in, raw non-ASCII content, also under the C locale
             small = {"path": ["$.a[*]", "$..b", "$.s"], "pointer": ["/a/2/b", "/s", "/a/2"], "patch": [[{"op": "add", "path": "/new", "value": [1, {"k": "v"}]}], [], [{"op": "copy", "from": "/s", "path": "/t"}]]}[cmd]
             for expr in small:
-                for dt in (DOC_TEXT, json.dumps(DOC, ensure_ascii=False), BAD_DOC_TEXT):
+                lone = dict(DOC, s="lone \ud800 surrogate", list=["\udfff", "y"])
+                for dt in (DOC_TEXT, json.dumps(DOC, ensure_ascii=False), json.dumps(lone, ensure_ascii=False), BAD_DOC_TEXT):
                     for enc in ("utf-8", "utf-8-sig", "utf-16", "utf-16-le", "utf-16-be", "utf-32", "utf-32-le", "utf-32-be"):
                         for mode in ("inprocess", "subprocess", "subprocess-c-locale"):
                             for pretty, out_file in ((False, False), (True, True)):
